@@ -35,6 +35,35 @@ def exactify(x):
     return y
 
 
+DECOMPS = ('qr', 'svd', 'svd_truncated', 'eigh', 'solve')
+
+
+class VecOut:
+    """a block vector returned by a decomposition (singular values / eigenvalues) together with the index it
+    lives on (the bond of the left factor / the second index of the input); `exact`: one block per charge of
+    that index (svd, svd_truncated) rather than a subset (eigh: only charges that carry a block)"""
+    def __init__(self, v, bond, exact):
+        self.v, self.bond, self.exact = v, bond, exact
+
+
+def vec_expr(vo, sym):
+    """Gallina term judging a returned block vector (the clauses of WfProofs3.wf_bvec / bvec_on, written with model
+    functions only): no key twice, every key a valid charge listed by the index, every block one-dimensional of
+    the length the index assigns to its charge, and (exact) as many blocks as the index has charges"""
+    items = '[' + '; '.join('(%s, %s)' % (gen.gch(c), gen.gnatlist(np.shape(b))) for c, b in vo.v.blocks.items()) + ']'
+    return ('(let v : list (C %(G)s * list nat) := %(v)s in let ix := %(ix)s in '
+            'nodupb (ceqb %(G)s) (map fst v) && '
+            'forallb (fun cs => valid %(G)s (fst cs) && mem (ceqb %(G)s) (fst cs) (icharges %(G)s ix) && '
+            'list_eqb Nat.eqb (snd cs) [size_of %(G)s ix (fst cs)] && Nat.ltb 0 (size_of %(G)s ix (fst cs))) v && '
+            '(%(sub)s || Nat.eqb (length v) (length (icharges %(G)s ix))))'
+            % {'G': sym, 'v': items, 'ix': gen.gindex(vo.bond, sym), 'sub': 'false' if vo.exact else 'true'})
+
+
+def describe_vec(vo):
+    return {'class': type(vo.v).__name__, 'blocks': {str(c): list(np.shape(b)) for c, b in vo.v.blocks.items()},
+            'index': ([list(kv) for kv in vo.bond.chargemap.items()], vo.bond.dual), 'one_block_per_charge': vo.exact}
+
+
 def random_op(rng, sr, regs, sym, ferm):
     """returns (description, list of result arrays) or None if not applicable / raises legitimately"""
     import symmray.linalg as la
@@ -172,14 +201,17 @@ def random_op(rng, sr, regs, sym, ferm):
             return ('qr', [exactify(q), exactify(r)])
         if kind == 'svd':
             u, s, vh = la.svd(m)
-            return ('svd', [exactify(u), exactify(vh)])
+            return ('svd', [exactify(u), exactify(vh), VecOut(s, u.indices[1], True)])
         if kind == 'svd_truncated':
             u, s, vh = la.svd_truncated(m, cutoff=rng.choice([0.0, 1e-3, 0.3]), cutoff_mode=rng.randint(1, 6), max_bond=rng.choice([-1, 1, 2, 5]),
                                         absorb=rng.choice([-1, 0, 1, None]))
-            return ('svd_truncated', [exactify(u), exactify(vh)])
+            return ('svd_truncated', [exactify(u), exactify(vh)] + ([VecOut(s, u.indices[1], True)] if hasattr(s, 'blocks') else []))
         if kind == 'eigh':
             if m.indices[0].chargemap != m.indices[1].chargemap or m.indices[0].dual == m.indices[1].dual or m.charge != refsym.zero(sym):
-                return None
+                # not of Hermitian structure itself: take m @ m^dagger (charge zero, sectors (c, c), square blocks)
+                m = m @ m.dagger()
+                if not m.blocks or m.charge != refsym.zero(sym):
+                    return None
             h = m.copy()
             for s in list(h.blocks):
                 if s[0] == s[1]:
@@ -187,9 +219,20 @@ def random_op(rng, sr, regs, sym, ferm):
                 else:
                     del h.blocks[s]
             w, v = la.eigh(h)
-            return ('eigh', [exactify(v)])
+            return ('eigh', [exactify(v), VecOut(w, h.indices[1], False)])
         if kind == 'solve':
-            return None
+            # a square system on m's first index: a = m @ m^dagger (charge zero, blocks (c, c)) made regular, b a random vector there
+            a = m @ m.dagger()
+            if not a.blocks:
+                return None
+            for s in list(a.blocks):
+                a.blocks[s] = np.asarray(a.blocks[s]) + 3.0 * np.eye(np.shape(a.blocks[s])[0])
+            b = gen.rand_array(rng, sr, sym, chargemaps=[dict(a.indices[0].chargemap)], duals=[a.indices[0].dual], fermionic=ferm,
+                               oddpos=rng.randint(100, 999), maxsize=2)
+            for s in list(b.blocks):
+                b.blocks[s] = np.asarray(b.blocks[s], dtype='float64')
+            x = la.solve(a, b)
+            return ('solve', [exactify(x)])
     return None
 
 
@@ -216,6 +259,9 @@ def with_replay(m):
     if kind == 'step':
         out['replay'] = rl.record('step', {'regs': a['regs'], 'result': y}, {
             **pr, 'out_index': b, 'step_index': a['index'], 'rng': rl.state_json(a['rng']), 'program_rng': rl.state_json(a['program_rng'])})
+    elif kind == 'twin_scenario':
+        out['replay'] = rl.record('twin_scenario', {('t%d' % i): d for i, (_, d) in enumerate(a['twins'])} | {'result': y},
+                                  {**pr, 'step': b, 'order': [sy for sy, _ in a['twins']], 'group': a['group'], 'which': a['which']})
     else:
         out['replay'] = rl.record('nested_scenario', {'x0': a, 'result': y}, {**pr, 'step': b})
     return out
@@ -227,7 +273,9 @@ def run(ctx):
     rng = ctx.rng
     n_prog = 500 if ctx.thorough else 90
     exprs, meta, found = [], [], []
+    vexprs, vmeta = [], []          # block vectors returned by the decompositions, judged in a cases file of their own
     opstat, raised = {}, {}
+    decomp = {}                     # decomposition results judged, by operation (factors, and block vectors separately)
     n_arrays = 0
     for k in range(n_prog):
         sym = SYMS[k % len(SYMS)]
@@ -262,10 +310,19 @@ def run(ctx):
             opstat[opn] = opstat.get(opn, 0) + 1
             trace.append(name)
             for j, y in enumerate(outs):
+                if isinstance(y, VecOut):
+                    ctx.count()
+                    decomp[opn + ':block_vector'] = decomp.get(opn + ':block_vector', 0) + 1
+                    vexprs.append(vec_expr(y, sym))
+                    vmeta.append({'op': name, 'symmetry': sym, 'fermionic': ferm, 'program': list(trace), 'result': describe_vec(y),
+                                  '_rp': ('step', step, j, y.v)})
+                    continue
                 if not hasattr(y, 'indices'):
                     continue
                 ctx.count()
                 n_arrays += 1
+                if opn in DECOMPS:
+                    decomp[opn] = decomp.get(opn, 0) + 1
                 tainted = classify({'op': name, 'fermionic': ferm, 'symmetry': sym, 'result': describe(y)}) is not None
                 # the result of a step that hits a pinned finding is judged but not used as input to later steps
                 if not tainted and y.ndim <= 5 and sum(int(np.prod(np.shape(b))) for b in y.blocks.values()) < 4000:
@@ -326,6 +383,46 @@ def run(ctx):
                 ctx.nontrivial((sym, ferm, 'nested-scenario', str(sorted(x0.blocks))))
         except (ValueError, KeyError, IndexError) as e:
             raised['scenario:' + type(e).__name__] = raised.get('scenario:' + type(e).__name__, 0) + 1
+    # ---- twins: the same tables, directions and axis groups under different symmetries, one after the other in this
+    #      process (whatever one call leaves behind in a cache must not leak into an array of another symmetry)
+    TW = {'Z': ['Z2', 'U1', 'Z4'], 'ZZ': ['Z2Z2', 'U1U1']}
+    for k in range(n_prog // 3):
+        fam = 'Z' if k % 2 == 0 else 'ZZ'
+        nd = rng.randint(2, 3)
+        chs = [0, 1] if fam == 'Z' else [(0, 0), (0, 1), (1, 0), (1, 1)]
+        cms = [{c: rng.randint(1, 2) for c in rng.sample(chs, rng.randint(2, len(chs)) if fam == 'Z' else rng.randint(2, 3))} for _ in range(nd)]
+        dus = [rng.random() < 0.5 for _ in range(nd)]
+        g = tuple(rng.sample(range(nd), 2))
+        order = list(TW[fam]); rng.shuffle(order)
+        twins = []
+        try:
+            # the U1-type array first; its twins store exactly the same sectors (conservation of the integer charge
+            # implies conservation modulo 2 / 4), in the same order, with the reduced total charge
+            top = 'U1' if fam == 'Z' else 'U1U1'
+            xt = gen.rand_array(rng, sr, top, chargemaps=[dict(c) for c in cms], duals=dus, maxsize=2, keep=rng.choice([1.0, 0.7]), static=False)
+            red = {'Z2': lambda q: q % 2, 'Z4': lambda q: q % 4, 'Z2Z2': lambda q: (q[0] % 2, q[1] % 2)}
+            for sy in order:
+                if sy == top:
+                    twins.append((sy, xt))
+                else:
+                    twins.append((sy, sr.AbelianArray(indices=[sr.BlockIndex(dict(c), dual=d) for c, d in zip(cms, dus)], charge=red[sy](xt.charge),
+                                                      blocks={sc: gen.rand_data(rng, np.asarray(b).shape, False, -3, 3) for sc, b in xt.blocks.items()},
+                                                      symmetry=sy)))
+            fulls = [(sy, rl.describe_safe(x)) for sy, x in twins]
+            for i, (sy, x) in enumerate(twins):
+                if not x.blocks:
+                    continue
+                y = x.fuse(g)
+                outs = [('fuse%r (twin %d of %s)' % (g, i, '/'.join(order)), y)]
+                outs.append(('fuse then unfuse (twin %d of %s)' % (i, '/'.join(order)), y.unfuse(min(g))))
+                for nm, z in outs:
+                    ctx.count()
+                    exprs.append(valid_expr(z, sy, False))
+                    meta.append({'op': nm, 'symmetry': sy, 'fermionic': False, 'program': ['(twins %s) fuse(%r)' % ('/'.join(order), g)],
+                                 'result': describe(z), '_rp': ('twin_scenario', {'twins': fulls, 'group': list(g), 'which': i}, nm, z)})
+            ctx.nontrivial(('twins', fam, str(cms), str(dus), g))
+        except (ValueError, KeyError, IndexError) as e:
+            raised['twins:' + type(e).__name__] = raised.get('twins:' + type(e).__name__, 0) + 1
     bad_idx = common.run_cases(ctx, 'valid', IMPORTS, '', exprs, shard=60)
     tie_broken = []
     if bad_idx is None:
@@ -346,15 +443,24 @@ def run(ctx):
                               {'oracle': 'Coq Model.Valid.valid_array / valid_farray on the returned array', **with_replay(meta[i]), 'run': rl.run_info(ctx)})
             nviol += 1
         bad_idx = [i for i in bad_idx if not (classify(meta[i]) and any(f.get('family') == classify(meta[i]) for f in kf))]
+    vbad = common.run_cases(ctx, 'bvec', IMPORTS, '', vexprs, shard=60)
+    if vbad is None:
+        tie_broken.append('cases.v (block vectors returned by the decompositions) did not evaluate')
+        vbad = []
+    for i in vbad[:3]:
+        ctx.violation('%s returns an invalid block vector' % vmeta[i]['op'],
+                      {'oracle': 'Coq: keys distinct valid charges of the bond index, block lengths = its sizes', **with_replay(vmeta[i]),
+                       'run': rl.run_info(ctx)})
     for f in found[:3]:
         ctx.violation(f['error'], {**with_replay(f), 'run': rl.run_info(ctx)})
     ctx.broken += tie_broken
-    if (not ok or tie_broken) and not (bad_idx or found):
+    if (not ok or tie_broken) and not (bad_idx or found or vbad):
         ctx.violation('proof obligation or tie of C01 no longer checks',
                       {'broken': ctx.broken, 'replay': rl.record('proof_phase')}, found_input=False)
     ctx.extra['operations_run'] = opstat
     ctx.extra['steps_that_raised'] = raised
     ctx.extra['arrays_judged'] = len(exprs)
+    ctx.extra['decomposition_results_judged'] = {'total': sum(decomp.values()), **dict(sorted(decomp.items()))}
     ctx.coverage['rule'] = ('random programs (2-7 steps over a register file; five symmetries incl. Z4; static and dynamic classes; abelian and '
                             'fermionic with pending signs) of public operations; every returned array judged by the Coq validity predicate; '
                             'non-trivial = program of >=2 steps with a sparse or fused array in a register; distinct by (symmetry, kind, op sequence)')
@@ -362,7 +468,9 @@ def run(ctx):
 
 # ------------------------------------------------------------------ replay
 def valid_expr(y, sym, ferm):
-    """the Gallina term run() judges a returned array by"""
+    """the Gallina term run() judges a returned array (or block vector of a decomposition) by"""
+    if isinstance(y, VecOut):
+        return vec_expr(y, sym)
     z = y
     if any(np.asarray(b).dtype.kind not in 'fc' or np.any(np.asarray(b) != np.round(np.asarray(b))) for b in y.blocks.values()):
         z = exactify(y)
@@ -409,6 +517,9 @@ def rerun_program(sr, rng, sym, ferm, upto):
             continue
         name, outs = res
         for j, y in enumerate(outs):
+            if isinstance(y, VecOut):
+                returned.append((st, name, j, y))
+                continue
             if not hasattr(y, 'indices'):
                 continue
             tainted = classify({'op': name, 'fermionic': ferm, 'symmetry': sym, 'result': describe(y)}) is not None
@@ -430,8 +541,11 @@ def _invalid(y, verdict, what):
     if hasattr(y, 'phases') and any(p not in (1, -1) for p in y.phases.values()):
         fails.append({'what': '%s: a pending sign is not +-1' % what, 'expected': '+-1', 'got': {str(k): v for k, v in y.phases.items()}})
     if verdict is not True:
-        fails.append({'what': '%s returns an invalid array' % what, 'expected': 'Model.Valid.valid_(f)array = true',
-                      'got': ('false on %s' % json.dumps(describe(y), default=str)) if verdict is False else verdict})
+        fails.append({'what': '%s returns an invalid %s' % (what, 'block vector' if isinstance(y, VecOut) else 'array'),
+                      'expected': ('keys = distinct valid charges of the bond index, block lengths = its sizes' if isinstance(y, VecOut)
+                                   else 'Model.Valid.valid_(f)array = true'),
+                      'got': ('false on %s' % json.dumps(describe_vec(y) if isinstance(y, VecOut) else describe(y), default=str))
+                      if verdict is False else verdict})
     return fails
 
 
@@ -450,7 +564,7 @@ def _rp_step(sr, ins, pr, r):
                 print('    step %d: %s' % (st, name))
                 continue
             v = next(verdicts)
-            known = _known({'op': name, 'fermionic': ferm, 'symmetry': sym, 'result': describe(y)})
+            known = (not isinstance(y, VecOut)) and _known({'op': name, 'fermionic': ferm, 'symmetry': sym, 'result': describe(y)})
             print('    step %d: %s -> output %d: %s%s' % (st, name, j, 'valid' if v is True else ('INVALID' if v is False else v),
                                                        ' (pinned known finding, not counted)' if known and v is not True else ''))
             if not known:
@@ -466,7 +580,8 @@ def _rp_step(sr, ins, pr, r):
         alone = res[1][pr['out_index']]
     reg_ok = coq_valid(list(ins['regs']) + [ins['result']] + ([alone] if alone is not None else []), sym, ferm)
     nreg = len(ins['regs'])
-    print('  recorded registers valid: %s; recorded result valid: %s' % (reg_ok[:nreg], reg_ok[nreg]))
+    print('  recorded registers valid: %s; recorded result valid: %s' % (
+        reg_ok[:nreg], reg_ok[nreg] if hasattr(ins['result'], 'indices') else '(a block vector: judged with its bond index in the program run above)'))
     if alone is not None:
         print('  the recorded step alone (%s) on the recorded registers returns a%s array' % (res[0], ' valid' if reg_ok[-1] is True else 'n INVALID'))
         if 'program_rng' not in pr:
@@ -500,7 +615,31 @@ def _rp_nested(sr, ins, pr, r):
     return _invalid(y, now, 'x0.fuse((0,1)).fuse((0,1)) ... ' + pr['step'])
 
 
-ORACLES = {'step': _rp_step, 'nested_scenario': _rp_nested}
+def _rp_twin(sr, ins, pr, r):
+    """the twins scenario: the same fuse on arrays of different symmetries with identical tables, in the recorded order"""
+    g = tuple(pr['group'])
+    y = None
+    try:
+        for i in range(len(pr['order'])):
+            x = ins['t%d' % i]
+            if not x.blocks:
+                continue
+            f = x.fuse(g)
+            u = f.unfuse(min(g))
+            if i == pr['which']:
+                y = f if pr['step'].startswith('fuse(') else u
+                break
+    except (ValueError, KeyError, IndexError) as e:
+        print('  the scenario raises now (%s: %s): no array is returned' % (type(e).__name__, e))
+        return []
+    if y is None:
+        return []
+    now, rec = coq_valid([y, ins['result']], pr['symmetry'], False)
+    print('  Coq validity predicate on the array returned now: %s; on the recorded array: %s' % (now, rec))
+    return _invalid(y, now, 'twins %s: fuse(%r) ... %s' % ('/'.join(pr['order']), g, pr['step']))
+
+
+ORACLES = {'step': _rp_step, 'nested_scenario': _rp_nested, 'twin_scenario': _rp_twin}
 
 
 def replay(path):
